@@ -15,7 +15,7 @@ from __future__ import annotations
 import ast
 from itertools import product
 
-from ..absmachine import AbsMachine, AList, Obj, Outcome, UNKNOWN, class_isinstance
+from ..absmachine import AbsMachine, AList, Obj, Outcome, Raise, UNKNOWN, class_isinstance
 from ..astx import attr_writes, call_name, call_sites, calls, method_name
 from ..cfg import CFG
 from ..exctable import ExcTable
@@ -125,10 +125,69 @@ def run(chk: Check, repo: Repo) -> None:
         if n == "self.remove_task":
             return [Outcome("REMOVE_TASK", None)]
         return None
+    # start_task, decided on what it does rather than on how it is written: for a task that is registered (member of
+    # self.tasks, flag set) and one that is not (neither), the running instance is cancelled before the new one starts,
+    # and afterwards the task is a member with its flag set.  remove_task() / Task.restart() are expanded by their own
+    # tables above (cancel + unregister / cancel + _start(), the latter raising for a task without flag); local aliases
+    # of the parameter are substituted first.  The two mixed states (flag without membership and the reverse) do not
+    # occur: the flag is written only by start_task / remove_task / stop next to the membership change (census below).
     f = R("start_task"); chk.unit(f)
-    cfg, paths = _run(repo, f, reg_calls, {"task": t1, "self.tasks": AList(()), "self.xknx": Obj("XKNX", "x")})
-    got = {(tuple(p.env.get("trace", ())), repr(p.env.get("self.tasks"))) for p in paths}
-    chk.ob("registry-start-task", f.site(), got == {(("REMOVE_TASK", "_start:t1"), "[<Task:t1>]")}, f"start_task: {sorted(got)}; reference remove_task(task) then register then _start()", key="reg-start")
+    import copy
+    fnode = copy.deepcopy(f.node)
+    params = {a_.arg for a_ in fnode.args.args}
+    alias = {}
+    for st_ in ast.walk(fnode):
+        if isinstance(st_, ast.Assign) and len(st_.targets) == 1 and isinstance(st_.targets[0], ast.Name) and isinstance(st_.value, ast.Name) and st_.value.id in params:
+            alias[st_.targets[0].id] = st_.value.id
+    for nm in list(alias):
+        if sum(1 for x in ast.walk(fnode) if isinstance(x, ast.Name) and x.id == nm and isinstance(x.ctx, ast.Store)) != 1:
+            del alias[nm]
+    class _Sub(ast.NodeTransformer):
+        def visit_Name(self, node):
+            if node.id in alias and isinstance(node.ctx, ast.Load):
+                return ast.copy_location(ast.Name(id=alias[node.id], ctx=ast.Load()), node)
+            return node
+    fnode = ast.fix_missing_locations(_Sub().visit(fnode))
+    xobj = Obj("XKNX", "x")
+    pname = [a_.arg for a_ in fnode.args.args][1]
+    def start_calls(c, env):
+        n = call_name(c)
+        if n == "self.remove_task":
+            arg = env.get(c.args[0].id) if c.args and isinstance(c.args[0], ast.Name) else None
+            tasks = env.get("self.tasks")
+            if isinstance(arg, Obj) and isinstance(tasks, AList) and arg in tasks.items:
+                env["self.tasks"] = AList(tuple(x for x in tasks.items if x is not arg))
+                env[f"{c.args[0].id}.xknx"] = None
+                return [Outcome(f"cancel:{arg.tag}", None)]
+            return [Outcome(None, None)]
+        if isinstance(c.func, ast.Attribute) and isinstance(c.func.value, ast.Name):
+            recv = env.get(c.func.value.id)
+            if isinstance(recv, Obj) and recv.cls == "Task":
+                flag = env.get(f"{c.func.value.id}.xknx")
+                if c.func.attr in ("restart", "_start") and flag is None:
+                    return [Outcome("unregistered-start", Raise("RuntimeError"))]
+                if c.func.attr == "restart":
+                    env["trace"] = tuple(env.get("trace", ())) + (f"cancel:{recv.tag}",)
+                    return [Outcome(f"_start:{recv.tag}", None)]
+                return [Outcome(f"{c.func.attr}:{recv.tag}", None)]
+        return None
+    for registered in (False, True):
+        env0 = {pname: t1, "self.tasks": AList((t2, t1) if registered else (t2,)), "self.xknx": xobj, f"{pname}.xknx": xobj if registered else None}
+        scfg = CFG(fnode)
+        am = AbsMachine(scfg, ExcTable(repo), start_calls, None)
+        am.isinstance_fn = class_isinstance(repo)
+        paths = Explorer(scfg, repo, am.step).run(scfg.entry, [], env0)
+        got = set()
+        for p in paths:
+            tasks = p.env.get("self.tasks")
+            member = isinstance(tasks, AList) and sum(1 for x in tasks.items if x is t1) == 1 and any(x is t2 for x in tasks.items)
+            got.add((tuple(p.env.get("trace", ())), member, p.env.get(f"{pname}.xknx") is xobj, p.end_kind))
+        want = {((("cancel:t1",) if registered else ()) + ("_start:t1",), True, True, "exit")}
+        chk.ob("registry-start-task", f.site(), got == want, f"start_task registered={registered}: (events, member of tasks, flag set, end) = {sorted(got, key=repr)}; reference {sorted(want, key=repr)}", key=f"reg-start|{registered}")
+    fw = [w for w in attr_writes(repo, "xknx", include_mutators=False) if w.func.cls is not None and w.func.cls.name in ("Task", "TaskRegistry") and isinstance(w.stmt, ast.Assign) and not ast.unparse(w.stmt.targets[0]).startswith("self.")]
+    okf = {w.func.qualname for w in fw} <= {"TaskRegistry.start_task", "TaskRegistry.remove_task", "TaskRegistry.stop"}
+    foreign = [w for w in attr_writes(repo, "xknx", include_mutators=False) if w.func.module.name != M and isinstance(w.stmt, ast.Assign) and "task" in ast.unparse(w.stmt.targets[0]).lower().split(".xknx")[0].split(".")[-1]]
+    chk.ob("registration-flag-writers", f.site(), okf and not foreign, f"Task.xknx is written by {sorted({w.func.qualname for w in fw})} (reference: start_task, remove_task, stop) and by no other module ({[w.func.qualname for w in foreign]})", key="flag-writers")
     f = R("remove_task"); chk.unit(f)
     for present in (False, True):
         cfg, paths = _run(repo, f, reg_calls, {"task": t1, "self.tasks": AList((t2, t1) if present else (t2,))})
